@@ -36,19 +36,7 @@ def ruleNameR (i : Nat) : String := "R" ++ toString i
 /-- `str::contains(&str)` -/
 def contains (s pat : String) : Bool := C16.isInfix pat.toList s.toList
 
-def cmpStr : Cmp → String
-  | .eq => "==" | .ne => "!=" | .gt => ">" | .lt => "<" | .ge => ">=" | .le => "<="
-
-/-- the literal as `condition_to_goal_pattern` prints it (and as the query text carries it):
-`b.to_string()`, `n.to_string()` (whole numbers: no fraction digits), `i.to_string()`, `"\"{}\""`;
-condition literals are scalars in the tie -/
-def litStr : Val → String
-  | .bool b => if b then "true" else "false"
-  | .num n => toString n
-  | .int n => toString n
-  | .str s => "\"" ++ s ++ "\""
-  | .arr _ => "?"
-  | .obj _ => "?"
+-- `cmpStr`, `litStr` (how `condition_to_goal_pattern` prints operator and literal): `Model.lean`
 
 /-- `condition_to_goal_pattern`: `format!("{} {} {}", field, op_str, value_str)`; the query text of
 the tie has the same shape -/
